@@ -8,7 +8,6 @@ import (
 	"encoding/json"
 	"fmt"
 	"sort"
-	"strconv"
 	"strings"
 
 	"github.com/uhn/ggql/pkg/ggql"
@@ -73,14 +72,37 @@ type Def struct {
 
 // ---------------------------------------------------------------- rendering
 
+// GQLQuote writes a string as a single line GraphQL string with escapes ggql's reader understands.
+func GQLQuote(s string) string {
+	var b strings.Builder
+	b.WriteByte('"')
+	for _, r := range s {
+		switch {
+		case r == '"':
+			b.WriteString(`\"`)
+		case r == '\\':
+			b.WriteString(`\\`)
+		case r == '\n':
+			b.WriteString(`\n`)
+		case r == '\t':
+			b.WriteString(`\t`)
+		case r == '\r':
+			b.WriteString(`\r`)
+		case r < 0x20:
+			b.WriteString(fmt.Sprintf(`\u%04x`, r))
+		default:
+			b.WriteRune(r)
+		}
+	}
+	b.WriteByte('"')
+	return b.String()
+}
+
 func descText(d string, indent string) string {
 	if d == "" {
 		return ""
 	}
-	if strings.ContainsAny(d, "\n\"\\") {
-		return indent + `"""` + "\n" + indent + strings.ReplaceAll(strings.ReplaceAll(d, `"""`, `\"""`), "\n", "\n"+indent) + "\n" + indent + `"""` + "\n"
-	}
-	return indent + strconv.Quote(d) + "\n"
+	return indent + GQLQuote(d) + "\n"
 }
 
 func usesText(us []DU) string {
@@ -106,7 +128,7 @@ func argsText(args []ArgD) string {
 	for _, a := range args {
 		s := ""
 		if a.Desc != "" {
-			s += strconv.Quote(a.Desc) + " "
+			s += GQLQuote(a.Desc) + " "
 		}
 		s += a.N + ": " + a.Type.String()
 		if a.HasDef {
